@@ -1,6 +1,6 @@
 """C35 - Header fee and gas arithmetic matches the specification."""
 import os
-from vcheck import write_json, InfraError
+from vcheck import write_json, InfraError, SPEC
 
 META = {
     "property_id": "C35",
@@ -14,6 +14,29 @@ META = {
 LEMMAS = "BaseFeeMaxChange BaseFeeDirection BaseFeeNonNegative BaseFeeMonotone ForkBlockBaseFee GasLimitInterval FakeExpLaws ExcessLaws IntrinsicLaws"
 
 
+def apalache_lemmas(ctx):
+    """Optional unbounded obligation: the EIP-1559 bound lemmas over SMT integers.  A failure to
+    run is a note, never a verdict; a counterexample concerns the model alone (exit 2)."""
+    import subprocess, time
+    out = os.path.join(ctx.scratch, "apalache")
+    cmd = ["apalache-mc", "check", "--init=IndInit", "--inv=Lemmas", "--length=0", "--out-dir=" + out,
+           os.path.join(SPEC, "codec", "FeeMathLemma.tla")]
+    t = time.time()
+    try:
+        p = subprocess.run(cmd, stdout=subprocess.PIPE, stderr=subprocess.STDOUT, text=True, timeout=ctx.pick(900, 3600), cwd=ctx.scratch)
+    except Exception as e:   # not installed / timeout
+        ctx.notes.append("Apalache lemma run did not complete (%s): no unbounded obligation in this run" % type(e).__name__)
+        return
+    if "EXITCODE: OK" in p.stdout:
+        ctx.notes.append("Apalache: FeeMathLemma.Lemmas (non-negative, direction, max change 1/8, gas-limit interval) hold for all integers (%.0fs)" % (time.time() - t))
+        ctx.cov["apalache"] = {"module": "codec/FeeMathLemma", "inv": "Lemmas", "outcome": "no error", "wall_s": round(time.time() - t, 1)}
+        ctx.log("Apalache: Lemmas hold over unbounded integers, %.1fs" % (time.time() - t))
+    elif "EXITCODE: ERROR (12)" in p.stdout:
+        raise InfraError("Apalache found a counterexample to FeeMathLemma.Lemmas on the model:\n" + p.stdout[-2000:])
+    else:
+        ctx.notes.append("Apalache lemma run failed to run: " + p.stdout[-300:].replace("\n", " "))
+
+
 def run(ctx):
     drv = ctx.build("c35")
     # MC + R: lemmas on the grid; the same run prints every case with the demanded value
@@ -25,6 +48,7 @@ def run(ctx):
         res = ctx.model_check("codec/MCFeeMath", "codec/MCFeeMathQuick", tags=("CASE",), timeout=3600, workers=4, name="MCFeeMath(quick grid + cases)")
     # MC: the BigNat transcription (used for mainnet magnitudes) agrees with the native one; BigNat laws
     ctx.model_check("codec/MCFeeMathBig", "codec/MCFeeMathBig", timeout=7200, workers=4, name="MCFeeMathBig(agreement + arithmetic laws)")
+    apalache_lemmas(ctx)
     cases = res.lines.get("CASE", [])
     if len(cases) < 1000:
         raise InfraError("TLC emitted only %d cases" % len(cases))
